@@ -86,8 +86,11 @@ func plan(tier string, seed int64) []vh.Batch {
 		add("thr", 4, false)
 		add("px", 8, false)
 		add("share", 2, false)
-		add("dir", 2, false)
-		add("cfg", 1, false)
+		// many short batches: every configuration request leaves the drain
+		// goroutines of its per-shape global buckets behind for the life of the
+		// process, and the census dumps all goroutines
+		add("dir", 6, false)
+		add("cfg", 2, false)
 		add("leak", 1, false)
 		add("race", 4, true)
 	} else {
@@ -1887,19 +1890,19 @@ func run(r *vh.Run, batch string) {
 	var n int
 	switch kind {
 	case "px":
-		n = r.Pick(5, 48)
+		n = r.Pick(10, 120)
 	case "thr":
-		n = r.Pick(2, 14)
+		n = r.Pick(3, 20)
 	case "dir":
-		n = r.Pick(40, 400)
+		n = r.Pick(60, 250)
 	case "cfg":
 		n = r.Pick(44, 220)
 	case "leak":
-		n = r.Pick(3, 12)
+		n = r.Pick(3, 20)
 	case "race":
-		n = r.Pick(4, 10)
+		n = r.Pick(6, 20)
 	case "share":
-		n = r.Pick(4, 25)
+		n = r.Pick(5, 40)
 	}
 	for i := 0; i < n; i++ {
 		c := scenCase{Kind: "scenario", Profile: kind, Stream: stream, Idx: i}
